@@ -279,6 +279,98 @@ fn build_cx() -> Cx {
     }
 }
 
+/// Constants of the registry types that this check does not reference by name (added after it was written, or
+/// declared as aliases in a plain impl block): their values are read through a generated probe built against
+/// /repo and judged by name - a constant whose name (ignoring case, underscores and a _RESERVED suffix) is a
+/// name of the registry tables / the official IANA names must have that name's value; other names are listed
+/// in the evidence and not judged.
+fn check_unlisted_consts(cx: &Cx, sink: &mut Sink) -> (usize, Vec<String>) {
+    use std::process::Command;
+    let mut cands: Vec<(String, String)> = Vec::new();
+    let types: Vec<&str> = cx.regs.iter().map(|r| r.reg.ty).collect();
+    for (ty, name) in scan_source_constants().into_iter().chain(vchecks::registries::scan_impl_constants()) {
+        if let Some(r) = cx.regs.iter().find(|r| r.reg.ty == ty) {
+            if !r.consts.iter().any(|(n, _)| *n == name) && !cands.contains(&(ty.clone(), name.clone())) {
+                cands.push((ty, name));
+            }
+        }
+    }
+    let _ = types;
+    if cands.is_empty() {
+        return (0, Vec::new());
+    }
+    let gen_dir = "/verif/target/c17";
+    let _ = std::fs::create_dir_all(gen_dir);
+    let gen = format!("{}/consts_gen.rs", gen_dir);
+    let mut src = String::from("{\n");
+    for (ty, name) in &cands {
+        src.push_str(&format!("    println!(\"CONST {ty} {name} {{}}\", {ty}::{name}.0 as u64);\n"));
+    }
+    src.push_str("}\n");
+    if std::fs::read_to_string(&gen).ok().as_deref() != Some(&src) {
+        if std::fs::write(&gen, &src).is_err() {
+            machinery_failure("C17", "cannot write the generated constant list");
+        }
+    }
+    let b = Command::new("cargo")
+        .args(["build", "--offline", "--target-dir", "/verif/target/c17/consts"])
+        .current_dir("/verif/probes/consts")
+        .env("CARGO_NET_OFFLINE", "true")
+        .env("CONSTS_GEN", &gen)
+        .env_remove("RUSTFLAGS")
+        .output();
+    let built = matches!(&b, Ok(o) if o.status.success());
+    let mut unjudged: Vec<String> = Vec::new();
+    if !built {
+        // e.g. a constant behind a cfg, or not public: nothing can be said about these names
+        return (0, cands.iter().map(|(t, n)| format!("{}::{} (probe does not build)", t, n)).collect());
+    }
+    let out = match Command::new("/verif/target/c17/consts/debug/consts-probe").output() {
+        Ok(o) if o.status.success() => String::from_utf8_lossy(&o.stdout).to_string(),
+        _ => machinery_failure("C17", "the constants probe did not run"),
+    };
+    let strip = |s: &str| -> String {
+        let n = iana::norm_name(s);
+        n.strip_suffix("reserved").map(|x| x.to_string()).unwrap_or(n)
+    };
+    let mut judged = 0;
+    for l in out.lines() {
+        let f: Vec<&str> = l.split_whitespace().collect();
+        if f.len() != 4 || f[0] != "CONST" {
+            continue;
+        }
+        let (ty, name, val) = (f[1], f[2], f[3].parse::<u64>().unwrap_or(u64::MAX));
+        let n = strip(name);
+        let r = cx.regs.iter().find(|r| r.reg.ty == ty).unwrap();
+        let mut expected: Vec<(u64, String)> = Vec::new();
+        for (cn, v) in r.reg.names {
+            if strip(cn) == n {
+                expected.push((*v, cn.to_string()));
+            }
+        }
+        for (t, v, on) in iana::OFFICIAL_NAMES.iter().chain(iana::EXTRA_ASSIGNMENTS.iter()) {
+            if *t == ty && strip(on) == n {
+                expected.push((*v, on.to_string()));
+            }
+        }
+        sink.evals += 1;
+        if expected.is_empty() {
+            unjudged.push(format!("{}::{} = {}", ty, name, val));
+            continue;
+        }
+        judged += 1;
+        sink.count("constants not referenced by name", if expected.iter().any(|(v, _)| *v == val) { "equal" } else { "different" });
+        if !expected.iter().any(|(v, _)| *v == val) {
+            sink.violation(
+                format!("const {}::{}", ty, name),
+                format!("{}::{} = {} but the registry assigns {} to {}", ty, name, val, expected[0].0, expected[0].1),
+                json!({"kind":"unlisted-const","type":ty,"name":name}),
+            );
+        }
+    }
+    (judged, unjudged)
+}
+
 const VARIANT_TARGET: &str = "/verif/target/feat-unstable";
 
 /// Build this check against tls-parser with every cargo feature on (std, serialize, unstable) and run it as a
@@ -353,6 +445,12 @@ fn main() {
                     let key = format!("const {}::{}", case["type"].as_str().unwrap(), case["name"].as_str().unwrap());
                     msgs.extend(s.viol.iter().filter(|v| v.key == key).map(|v| v.what.clone()));
                 }
+                Some("unlisted-const") => {
+                    let mut s = Sink::new();
+                    check_unlisted_consts(&cx, &mut s);
+                    let key = format!("const {}::{}", case["type"].as_str().unwrap(), case["name"].as_str().unwrap());
+                    msgs.extend(s.viol.iter().filter(|v| v.key == key).map(|v| v.what.clone()));
+                }
                 _ => machinery_failure(run.prop, "unknown replay kind"),
             }
             res.push(msgs);
@@ -374,6 +472,7 @@ fn main() {
 
     let mut sink = Sink::new();
     check_consts(&cx, &mut sink);
+    let (njudged, unjudged) = if sub { (0, Vec::new()) } else { check_unlisted_consts(&cx, &mut sink) };
     let nconst = sink.evals;
     // work items: (type index, chunk of the domain)
     let mut items: Vec<(usize, u64, u64)> = Vec::new();
@@ -447,6 +546,8 @@ fn main() {
     cov.insert("registry_types".into(), json!(cx.regs.len() + 1));
     cov.insert("named_constants_checked".into(), json!(nconst));
     cov.insert("constants_in_source_without_registry_entry".into(), json!(unknown));
+    cov.insert("unlisted_constants_judged_by_name".into(), json!(njudged));
+    cov.insert("unlisted_constants_not_judged".into(), json!(unjudged));
     cov.insert("rule".into(), json!(
         "every value of the domain of each of the 18 registry newtypes (12 x 256 + 6 x 65536) and of TlsCipherSuiteID (65536): Display/Debug text, every integer conversion, SignatureScheme split/reserved range, NamedGroup::key_bits; every named constant against the IANA value transcribed from the RFCs. The whole sweep runs twice: against the crate with features std+serialize and against the crate with all cargo features (std, serialize, unstable; a second build of this check). Cases are (type, value) pairs, distinct by construction; non-trivial = the value is a named constant or adjacent to one (or within 0xfdff..0xff00 for SignatureScheme)"));
     let code = run.finish(
